@@ -282,6 +282,8 @@ def parts(ctx):
            dom={INT: (-1, 0, 2), REAL: (Fraction(-1), Fraction(0), Fraction(1, 2))}))
     if not q:
         A(dict(name="bv5-d1", profile=lambda e: P.bv_profile(e, (5,)), depth=1, shards=64))
+    A(dict(name="bigarr-d1", profile=P.bigarr_profile, depth=1, shards=16, top_ops=_names("select", "selectb", "eqa", "eqab"),
+           dom={INT: (0, 5, 11, 12)}))
     # cross-theory terms (children of another theory below every operator)
     A(dict(name="mixed-d2", profile=lambda e: P.mixed_profile(e, uf=False), depth=2, shards=32, max_new=1,
            dom={INT: (-1, 0, 2), STRING: ("", "a", "12")}))
